@@ -91,22 +91,33 @@ def compose(ctx, g, total):
         fs.setdefault("n", 0)
         cases.append({"id": len(cases) + 1, "cred": len(cases) % 2 == 1, "fs": fs, "ops": ops})
 
-    def item(p, mode, mk):
-        it = {"p": p, "idx": 0, "mode": mode, "mk": mk}
+    def item(p, mode, mk, perm=420):
+        it = {"p": p, "idx": 0, "mode": mode, "mk": mk, "perm": perm}
         assert it in oitems
         return it
     # covering family: every kind at one path x every mode x MkdirAll, in the middle of a mixed batch
     kinds = sorted({s["a"] for s in states})
+    modes = sorted(m["mode"] for m in rd("modes.ndjson"))
+    perms = sorted({i["perm"] for i in oitems})
+    base = ("r", "w", "rw")
     for k in kinds:
-        for mode in ("r", "w", "rw"):
+        for mode in modes:
             for mk in (False, True):
-                if ctx.quick() and mk and mode != "w":
+                if ctx.quick() and ((mk and mode != "w") or (mode not in base and k not in ("regular", "unreadable", "absent", "dangling", "fifo"))):
+                    continue
+                if mk and mode not in base:
                     continue
                 cand = [s for s in states if s["a"] == k]
                 fs = dict(rng.choice(cand))
-                items = [item("target", "r", False), item("a", mode, mk), item(rng.choice(["b", "c"]), rng.choice(["r", "w", "rw"]), mk),
-                         item("target", "rw", False)]
+                items = [item("target", rng.choice(["r", "a", "rwa"]), False), item("a", mode, mk, rng.choice(perms)),
+                         item(rng.choice(["b", "c"]), rng.choice(modes), mk, rng.choice(perms)),
+                         item("target", rng.choice(["rw", "rwt", "ws", "a"]), False)]
                 add(fs, [{"op": "open", "items": items}, mkop(rng.choice(["open", "symlink", "delete"]))])
+    # the same file through several descriptors of one batch: truncate, append, overwrite, exclusive create
+    for _ in range(ctx.pick(6, 40)):
+        fs = dict(rng.choice([s for s in states if s["a"] in ("regular", "unreadable", "absent")]))
+        items = [item("a", rng.choice(modes), False, rng.choice(perms)) for _ in range(rng.choice([2, 3, 4]))]
+        add(fs, [{"op": "open", "items": items}, {"op": "open", "items": [item("a", rng.choice(["a", "rwa", "r", "x"]), False)]}])
     # c below a missing / present parent with and without MkdirAll
     for sub in ("absent", "dir"):
         for mk in (False, True):
@@ -240,7 +251,7 @@ def run(ctx):
     ctx.states += a["mc"].distinct
     ctx.transitions += a["mc"].generated
     ctx.cov["mc_distinct"] = a["mc"].distinct
-    cases, cover = compose(ctx, a["gen"], ctx.pick(110, 2000))
+    cases, cover = compose(ctx, a["gen"], ctx.pick(150, 2000))
     ctx.log("%d cases (%d covering), %d operations" % (len(cases), cover, sum(len(c["ops"]) for c in cases)))
     cp, op = ctx.path("focases.ndjson"), ctx.path("foobs.ndjson")
     with open(cp, "w") as fh:
